@@ -73,11 +73,11 @@ T4 = {
  "C09-H": ("B", "copy_to_dst: debug_assert + ptr::copy_nonoverlapping instead of the checked slice copy", "feature compact; any integer type; a buffer shorter than the digits; no debug assertions: the digits are written behind the caller's slice before the panic", ["C09"], ""),
  "C10-G": ("A", "BIGFLOAT_BITS 1200 -> 1075 + 64 (one limb fewer)", "feature radix; odd mantissa radix; f64 below about 2^-1000; long digits at a midpoint: `shl_limbs(..).unwrap()` panics", ["C10"], ""),
  "C10-H": ("B", "parse_number: the fraction slice length is measured from the start of the number", "feature format; a format whose fraction accepts digit separators; floats with a '.': debug assertion, in release the slow paths read the bytes behind the input", ["C10"], ""),
- "C11-G": ("A", "FractionDigitsIterator judges the neighbours of a separator in the exponent radix", "format + power-of-two; mantissa radix != exponent radix; fraction separators: partial `1.7_9` (octal mantissa, decimal exponent) consumes the separator", ["C11"], "run after the catalogue had gained separator formats with mantissa radix below exponent radix (section 21.4); the round-3 formats SEP_R16B2E10_ALL_* (hex mantissa, decimal exponent) reach the same code with the opposite inequality"),
+ "C11-G": ("A", "FractionDigitsIterator judges the neighbours of a separator in the exponent radix", "format + power-of-two; mantissa radix != exponent radix; fraction separators: partial `1.7_9` (octal mantissa, decimal exponent) consumes the separator", ["C11"], "missed by C11 with the catalogue of 796 formats (C13 reported the same edit, C13-H, through SEP_R16B2E10_ALL_*): C11's relation needs a separator followed by a byte that is an exponent digit but not a mantissa digit; formats with separators in every component and a mantissa radix below the exponent radix and the largest exponent digit in the alphabets were added"),
  "C11-H": ("B", "parse_partial: the early return for an input that is empty after the sign tests REQUIRED_DIGITS", "feature format; a float format with optional mantissa digits; `\"\"`, `+`, `-`: complete Ok(-0.0), partial Err(Empty)", ["C11"], ""),
  "C12-G": ("A", "shared::starts_with advances the input iterator once more when the special string ends first", "feature format; case_sensitive_special; a special string in exact case followed by exactly one byte: `infx` -> inf", ["C12"], ""),
  "C13-G": ("A", "is_it! @internal: a separator with no byte after it is no longer skipped", "feature format; a component with exactly internal+trailing separators: a trailing separator that ends the input is rejected; component-final separators are taken for digits in the slow path", ["C13"], ""),
- "C13-H": ("B", "the same edit as C11-G, found independently by the C13 author", "see C11-G: hex float `1.8_ap3` rejected under internal fraction separators", ["C13"], "as C11-G"),
+ "C13-H": ("B", "the same edit as C11-G, found independently by the C13 author", "see C11-G: hex float `1.8_ap3` rejected under internal fraction separators", ["C13"], ""),
  "C14-G": ("A", "hex write_float: the zero special case of the scientific exponent removed", "power-of-two; mixed-base formats; the value +-0.0 is written as `0.0p-1076`", ["C14"], "missed at first: C14 generated no zeros and returned early for them; zero is now generated and judged (denotes zero, sign, exponent notation exactly when the format requires it - sound also under the reading that breaks are ignored for mixed bases)"),
  "C14-H": ("B", "generic-radix truncate_and_round: the Truncate early return moved above the leading-zero adjustment", "feature radix; Truncate; max_significant_digits; a magnitude below 1 written positionally: radix 12 0.375 at 2 digits -> `0.4`", ["C14"], ""),
  "C15-G": ("A", "no_special is only checked by the complete parser", "feature format; no_special; parse_partial on `-inf`, `NaN`", ["C15"], ""),
